@@ -133,6 +133,24 @@ func marshaler(name string, r resource.Resource, key []byte) store.Marshaler {
 	return pb
 }
 
+// batchMarshaler is one long-lived marshaler per stacking (compression whenever possible), as a backing store uses it.
+func batchMarshaler(name string, key []byte) store.Marshaler {
+	pb := store.ProtobufMarshaler{}
+
+	switch name {
+	case "zstd", "zstd-big":
+		return compression.NewMarshaler(pb, compression.ZStd(), 1)
+	case "enc":
+		return encryption.NewMarshaler(pb, cipher(key))
+	case "enc-zstd":
+		return encryption.NewMarshaler(compression.NewMarshaler(pb, compression.ZStd(), 1), cipher(key))
+	case "zstd-enc":
+		return compression.NewMarshaler(encryption.NewMarshaler(pb, cipher(key)), compression.ZStd(), 1)
+	}
+
+	return pb
+}
+
 func decode(m store.Marshaler, b []byte, orig resource.Resource) (outcome, note string) {
 	defer func() {
 		if p := recover(); p != nil {
@@ -401,6 +419,49 @@ func TestCodecs(t *testing.T) {
 					distinct[sha256.Sum256(append([]byte("yaml"), c...))] = struct{}{}
 				}()
 			}
+		}
+	}
+
+	// --- records are independent values: every shape is encoded with ONE marshaler per stacking, the encodings are
+	// kept (as a store keeps them) and decoded only after all later encodings were produced; also a copy taken right
+	// after encoding must equal the kept bytes at the end
+	for _, name := range in.Stackings {
+		m := batchMarshaler(name, key1)
+		recs := make([][]byte, len(in.Shapes))
+		copies := make([][]byte, len(in.Shapes))
+		origs := make([]resource.Resource, len(in.Shapes))
+
+		for i, s := range in.Shapes {
+			origs[i] = concretise(s)
+
+			b, merr := m.MarshalResource(origs[i])
+			if merr != nil {
+				continue
+			}
+
+			recs[i] = b
+			copies[i] = append([]byte(nil), b...)
+		}
+
+		for i, s := range in.Shapes {
+			if recs[i] == nil {
+				continue
+			}
+
+			l := Line{Ev: "roundtrip", Codec: name, Shape: s}
+			l.Outcome, l.Note = decode(m, recs[i], origs[i])
+
+			if l.Outcome == "same" && string(recs[i]) != string(copies[i]) {
+				l.Outcome = "different"
+			}
+
+			if l.Outcome != "same" {
+				l.Note = "kept-encoding-changed-by-later-encodings " + l.Note
+			}
+
+			evals++
+
+			tr.Emit(l)
 		}
 	}
 
